@@ -66,6 +66,50 @@ def limit_grid():
     return rows
 
 
+def big_grid(default_limit):
+    """chunk lists given as (number of `a` bytes, newline behind them?): segments of about a
+    million bytes and of a few MB in 2+ chunks, for limit 0 (= unlimited), one million, and the
+    constructor's default (None)"""
+    M = 1000000
+    rows = []
+    for lim in (0, M, None):
+        for n in (M - 1, M, M + 1, 2 * M + 500000):
+            h = n // 2
+            rows.append((lim, [(h, False), (n - h, False), (0, True), (2, True)]))
+            rows.append((lim, [(h, False), (n - h, True), (2, True)]))
+            rows.append((lim, [(n, False), (1, False), (0, True), (3, False), (0, True)]))
+    return rows
+
+
+def observe_big(framing, lim, spec):
+    chunks = [b'a' * n + (b'\n' if nl else b'') for n, nl in spec]
+    from harness import vloop
+    import asyncio
+
+    async def go():
+        fr = framing.NewlineFramer() if lim is None else framing.NewlineFramer(lim)
+        out = []
+
+        async def reader():
+            while len(out) <= 2 * len(chunks) + 4:
+                try:
+                    out.append(len(await fr.receive_message()))
+                except MemoryError:
+                    out.append(None)
+
+        for c in chunks:
+            fr.received_bytes(c)
+        task = asyncio.ensure_future(reader())
+        await asyncio.sleep(1.0)
+        task.cancel()
+        try:
+            await task
+        except asyncio.CancelledError:
+            pass
+        return out
+    return vloop.run(go())
+
+
 def extract(repo):
     framing = common.fresh_import(repo, 'aiorpcx.framing')
     fr = framing.NewlineFramer()
@@ -80,7 +124,13 @@ def extract(repo):
         out = observe(framing, lim, chunks)
         limit_table.append((lim, [list(c) for c in chunks],
                             [None if o is None else list(o) for o in out]))
+    dflt = getattr(fr, 'max_size', None)
+    big_table = []
+    for lim, spec in big_grid(dflt):
+        eff = lim if lim is not None else (dflt if isinstance(dflt, int) else 0)
+        big_table.append((eff, spec, observe_big(framing, lim, spec)))
     return {
+        'big_table': big_table,
         'frame_suffix': list(fr.frame(b'')),
         'frame_table': frame_table,
         'sep_table': sep_table,
@@ -102,6 +152,10 @@ def render(f):
     seps = ',\n  '.join(f'({b}, {_outs(o)})' for b, o in f['sep_table'])
     lims = ',\n  '.join(f'({lim}, [{", ".join(lb(c) for c in ch)}], {_outs(o)})'
                         for lim, ch, o in f['limit_table'])
+    bigs = ',\n  '.join(
+        f'({lim}, [' + ', '.join(f'({n}, {"true" if nl else "false"})' for n, nl in spec) + '], ['
+        + ', '.join('none' if o is None else f'some {o}' for o in out) + '])'
+        for lim, spec, out in f['big_table'])
     return (
         '/-! GENERATED by tools/facts/c06.py from /repo on every run - do not edit. -/\n'
         'namespace Aiorpcx.Facts.C06\n'
@@ -117,4 +171,8 @@ def render(f):
         f'def terminators : List UInt8 := {lb(f["terminators"])}\n'
         '/-- (limit, chunks, outcomes) of the real framer on the size-test grid -/\n'
         f'def limitTable : List (Nat × List (List UInt8) × List (Option (List UInt8))) := [\n  {lims}]\n'
+        '/-- (limit, chunks as (number of `a` bytes, newline behind them?), outcomes as lengths of the\n'
+        '    delivered messages / `none` for MemoryError) of the real framer on megabyte segments;\n'
+        '    the last third of the rows was run on `NewlineFramer()` (limit = its `max_size`) -/\n'
+        f'def bigTable : List (Nat × List (Nat × Bool) × List (Option Nat)) := [\n  {bigs}]\n'
         'end Aiorpcx.Facts.C06\n')
